@@ -140,9 +140,13 @@ fn main() {
         vec![(c.text, -1, -1, -1), (c.text, c.bg, c.deco, -1), (-1, c.bg, -2, c.deco), (-1, -1, -1, -1), (c.text, c.bg, -2, -2), (-1, -1, c.deco, c.deco)]
     };
     let lhs: Vec<Value> = if th { vec![json!([1, 100]), json!([0, 0]), json!([0, 1]), json!([1, 50]), json!([1, 400]), json!([0, 1024])] } else { vec![json!([1, 100]), json!([0, 3])] };
+    // invisible / zero-width / control / combining / non-BMP characters: ordinary unmapped characters, one cell each;
+    // on every 9th font (all fonts in the thorough tier)
+    let exotic = ["\u{FEFF}Hel", "ab\u{200B}cd\u{200D}", "x\u{2060}\u{200C}y\nz", "a\0b\u{7f}", "q\re", "e\u{301}\u{1F600}o", "\u{a0}\u{ad}|"];
     let mut n = 0usize;
-    for (fname, _) in FONTS.iter() {
-        for s in strings.iter() {
+    for (fi, (fname, _)) in FONTS.iter().enumerate() {
+        let strs: Vec<&str> = if th || fi % 9 == 0 { strings.iter().chain(exotic.iter()).copied().collect() } else { strings.to_vec() };
+        for s in strs.iter() {
             for bl in 0..4 {
                 for al in 0..3 {
                     n += 1;
